@@ -478,7 +478,7 @@ func cdrState(abstractCounts bool) func(w *World, h *HistRun) (string, any) {
 				cs = append(cs, fmt.Sprintf("s%d->r%d", ord[ref], idx))
 			}
 			sort.Strings(cs)
-			parts = append(parts, supi[len(supi)-1:]+"["+strings.Join(rs, ",")+"]{"+strings.Join(cs, ",")+"}")
+			parts = append(parts, supi+"["+strings.Join(rs, ",")+"]{"+strings.Join(cs, ",")+"}")
 		}
 		var lv []string
 		for i, se := range h.Sess {
